@@ -1,7 +1,7 @@
 (* C16 - splice sites of the code generator (table K10 is generated from /repo on every
    run by tools/kernels/k10_splices.py) and the condition under which a site is safe. *)
 From Coq Require Import List String Ascii NArith Bool Lia.
-From Verif Require Import PyStrLit.
+From Verif Require Import PyStrLit PyLit.
 Import ListNotations.
 Open Scope N_scope.
 
@@ -14,9 +14,38 @@ Inductive kind :=
 | KRaw       (* spliced as it is (between static quote characters or not at all) *)
 | KUnknown.  (* the scanner could not classify the value or its context: fails closed *)
 
+(* Python types of the values that can reach a repr()/ascii() splice, as far as the generator's
+   source guards it (isinstance / type(..) in tests recognised by K10) or the API declares it
+   (aliases, keys, discriminator fields and enum member names are str) *)
+Inductive vty := TStr | TBytes | TInt | TBool | TNone | TFloat | TTuple | TAny
+                | TStrSub | TBytesSub | TIntSub.  (* isinstance guard: instances of SUBCLASSES too (their __repr__ may be overridden) *)
+
+(* repr() of these is a literal of the language (TFloat: finite floats; their repr is digits,
+   sign, point and exponent only - not modelled here) *)
+Definition literal_kind (t: vty) : bool :=
+  match t with TStr | TBytes | TInt | TBool | TNone | TFloat => true | _ => false end.
+(* weaker: also admits the sub-class kinds; sound only for values whose type is exactly the builtin *)
+Definition literal_kind_sub (t: vty) : bool :=
+  match t with TTuple | TAny => false | _ => true end.
+
+Definition vty_eqb (a b: vty) : bool :=
+  match a, b with
+  | TStr, TStr | TBytes, TBytes | TInt, TInt | TBool, TBool | TNone, TNone
+  | TFloat, TFloat | TTuple, TTuple | TAny, TAny | TStrSub, TStrSub | TBytesSub, TBytesSub | TIntSub, TIntSub => true
+  | _, _ => false
+  end.
+
+(* the type of an atom of the value model *)
+Definition atom_ty (v: lit) : option vty :=
+  match v with
+  | LStr _ => Some TStr | LBytes _ => Some TBytes | LInt _ => Some TInt
+  | LBool _ => Some TBool | LNone => Some TNone | _ => None
+  end.
+
 Record site := mk_site {
   s_file : string; s_line : nat; s_func : string; s_expr : string; s_origin : string;
   s_kind : kind;
+  s_types : list vty; (* value types reaching the splice (empty for raw kinds) *)
   s_before : string;  (* static text of the generated line before the value; newline = line start;
                          code 2 = a CODE placeholder, code 1 = unknown context *)
   s_after : string    (* static text after the value; newline = end of line *)
@@ -42,7 +71,7 @@ Definition before_ok (b: list N) : bool :=
 Definition after_ok (a: list N) : bool :=
   match a with
   | [] => false
-  | c :: _ => negb (is_quote c) && negb (c <? 9)
+  | c :: _ => negb (c <? 9) && ends_token a   (* not a quote, identifier character, point or ( *)
   end.
 
 (* after a raw identifier the next character must in addition not continue the name *)
@@ -52,9 +81,21 @@ Definition after_ident_ok (a: list N) : bool :=
   | c :: _ => negb (is_ident_char c)
   end.
 
+Definition types_ok_gen (lk: vty -> bool) (s: site) : bool :=
+  match s_kind s with
+  | KRepr | KAscii => negb (match s_types s with [] => true | _ => false end) && forallb lk (s_types s)
+  | _ => true
+  end.
+Definition types_ok := types_ok_gen literal_kind.            (* full: whatever passes the guard *)
+Definition types_ok_full := types_ok_gen literal_kind.
+
 Definition site_ok (s: site) : bool :=
   kind_ok (s_kind s) && before_ok (codes (s_before s)) && after_ok (codes (s_after s))
-  && match s_kind s with KGuardedIdent => after_ident_ok (codes (s_after s)) | _ => true end.
+  && match s_kind s with KGuardedIdent => after_ident_ok (codes (s_after s)) | _ => true end
+  && types_ok s.
+
+(* full strength: the guards admit no instance of a subclass either *)
+Definition site_ok_full (s: site) : bool := site_ok s && types_ok_full s.
 
 (* the text the generator emits for the data string [d] at a site of kind k *)
 Definition site_text (k: kind) (p: N -> bool) (d: str) : list N :=
@@ -82,8 +123,24 @@ Proof.
   (repeat split; [apply orb_false_iff; split; apply N.eqb_neq; lia | lia ..]).
 Qed.
 
+Lemma after_ok_ends a rest : after_ok a = true -> ends_token (a ++ rest) = true.
+Proof.
+  destruct a as [|c a']; [discriminate|]. unfold after_ok. intros H.
+  apply andb_true_iff in H. destruct H as [_ H]. exact H.
+Qed.
+
 Lemma after_ok_ctx a rest : after_ok a = true -> ctx_ok (a ++ rest) = true.
 Proof.
-  destruct a as [|c a']; [discriminate|]. cbn. intros H.
-  apply andb_true_iff in H. destruct H as [H _]. exact H.
+  intros H. pose proof (after_ok_ends a rest H) as E.
+  destruct a as [|c a']; [discriminate|]. cbn in *.
+  apply andb_true_iff in E. destruct E as [E _].
+  apply andb_true_iff in E. destruct E as [E _].
+  apply andb_true_iff in E. destruct E as [_ E]. exact E.
 Qed.
+
+(* the text emitted for a value of the value model at a repr / ascii site *)
+Definition site_value_text (k: kind) (p: N -> bool) (v: lit) : list N :=
+  match k with
+  | KAscii => render_lit (fun _ => false) v
+  | _ => render_lit p v
+  end.
